@@ -198,6 +198,18 @@ fn chain_rule(rng: &mut Rng, id: String, lang: &'static str, f: &str, nglob: usi
   } else {
     doc.insert("rule".into(), json!({ "pattern": pat }));
   }
+  // relational conjuncts that hold for every call: the match set is unchanged, but each of them
+  // records a secondary label on a different node, in the order the relations are evaluated
+  // (snapshots of `sg test` list the labels; their order must not depend on the process)
+  if rng.chance(2, 3) {
+    feats.push("several-relations");
+    let r = doc.get_mut("rule").unwrap();
+    r["has"] = json!({"kind": "identifier", "stopBy": "end"});
+    r["inside"] = json!({"kind": "program", "stopBy": "end"});
+    if rng.chance(1, 2) {
+      r["not"] = json!({"follows": {"kind": "import_statement", "stopBy": "end"}});
+    }
+  }
   // constraints on disjoint variables; B's constraint decides which argument texts match
   let mut cons = Map::new();
   cons.insert("A".into(), if rng.chance(1, 2) { json!({"kind": "identifier"}) } else { json!({"regex": "^[a-zA-Z_]+$"}) });
